@@ -46,12 +46,16 @@ def gen_cfg(sw: Stream, ra: Stream, methods=('pit', 'mps', 'sn'), weights=(4, 4,
             ctor['disable_shared_quantizers'] = True
         cfg['cost'] = sw.choice(['single:params_bit', 'dict:params_bit+ops_bit', 'single:ops_bit'])
     else:
-        cfg['spec'] = arch.gen_supernet(ra)
+        cfg['spec'] = arch.gen_supernet(ra, max_branches=sw.choice([3, 4, 4, 8]))
         if sw.chance(0.3):
             ctor['full_cost'] = True
         cfg['cost'] = sw.choice(['single:params', 'single:ops', 'dict:params+ops'])
     if sw.chance(0.15):
         cfg['seed_in_eval'] = True
+    if sw.chance(0.15):
+        ctor['input_example'] = True          # wrapper built from an input example instead of an input shape
+    if not cfg['spec']['feats'].get('has_bn') and sw.chance(0.15):
+        cfg['batch'] = 1
     if method in ('pit', 'mps') and sw.chance(0.15):
         # one searchable layer is excluded from the search by name (stays a fixed layer)
         cand = [n for n, d in cfg['spec']['mods'].items()
